@@ -26,7 +26,8 @@ Does NOT require:
     a bound method of a *finished* thread object (Ctrl-C is then addressed to a dead stage) or
     when the behavioural probe (self-sent SIGINT -> KeyboardInterrupt in the main thread) fails;
     TSTP/QUIT/WINCH handlers likewise only when left pointing at a finished thread;
-  * fds / children that a pending finalizer releases (gc.collect() runs before every snapshot);
+  * fds / children that a pending finalizer releases (gc.collect() and CPython's own deferred
+    reaping of collected Popen objects, subprocess._cleanup(), run before every snapshot);
     what is still open/un-reaped after that is held by live session state (e.g. XSH.lastcmd) and
     counts - flagged `bounded` when it does not grow with repetitions, `grows` when it does;
   * values of documented per-command variables (c09_child.VOLATILE_ENV), contents of files the
@@ -75,7 +76,6 @@ EARLY_THOROUGH = EARLY_QUICK + [
     ("thr_big", "nosuch"),
     ("ext_slowbig", "ext_head1", "ext_eat"),
     ("ext_big", "ext_eat", "ext_head1"),
-    ("ext_slowbig", "ext_eat", "ext_head1"),
 ]
 
 # class representative of a stage kind (first step of the key reduction); everything finally -> ext_ok
@@ -109,6 +109,7 @@ CLAUSE = {
     "stdio": "sys.stdin/stdout/stderr unchanged",
     "sigint-handler": "Ctrl-C still interrupts (handler left addressed to a finished stage)",
     "sig-handlers": "Ctrl-C still interrupts / signal handlers swapped while a stage ran are restored",
+    "stage-thread-died": "no wedged session",
     "sigint-probe": "Ctrl-C still interrupts",
     "env": "environment unchanged apart from documented effects",
     "hang": "repeating a command cannot wedge the session",
@@ -117,8 +118,18 @@ CLAUSE = {
 # ------------------------------------------------------------------ space
 
 
+# `slowbig` writes until SIGPIPE: a line is only a terminating command when the next stage ends
+# without draining its stdin
+_NON_DRAINING = {"ext_ok", "ext_fail", "ext_head1", "nosuch", "nonexec", "dir", "nonexec_rel", "thr_head1", "thr_early", "thr_raise", "thr_exit", "thr_rc1"}
+
+
 def _valid(stages, red):
-    return not (red == "a>p" and len(stages) < 2)
+    if not stages or (red == "a>p" and len(stages) < 2):
+        return False
+    for i, k in enumerate(stages):
+        if k == "ext_slowbig" and (i == len(stages) - 1 or stages[i + 1] not in _NON_DRAINING):
+            return False
+    return True
 
 
 def _deviations(stages, cap, red):
@@ -212,11 +223,10 @@ def judge(res):
     """Observation -> {resource signature: {observed, expected}} (empty = session as found)."""
     v = {}
     if res.get("hang"):
-        v["hang"] = {"observed": "exec did not return within the case alarm" + (" (child had to be killed)" if res.get("hard") else ""), "expected": "command returns"}
+        v["hang"] = {"observed": {"what": "exec did not return within the case alarm" + (" (child had to be killed)" if res.get("hard") else ""), "stacks": res.get("hang_stacks", [])[:6]}, "expected": "command returns"}
         if len(res.get("snaps", [])) < 3:
             return v
     s0, s1, s3 = res["snaps"][0], res["snaps"][1], res["snaps"][-1]
-    # multiset resources
     for field, name in (("fds", "fd-leak"), ("threads", "thread-left")):
         b, a1, a3 = Counter(s0[field]), Counter(s1[field]), Counter(s3[field])
         e1, e3 = a1 - b, a3 - b
@@ -228,15 +238,17 @@ def judge(res):
     b, a1, a3 = Counter(s0["children"]), Counter(s1["children"]), Counter(s3["children"])
     e1, e3 = a1 - b, a3 - b
     for st in sorted(set(e1) | set(e3)):
-        name = "zombie" if st == "Z" else "child-left"
-        det = _grow(e1[st], e3[st]) if st == "Z" else f"state-{st},{_grow(e1[st], e3[st])}"
-        v[f"{name}[{det}]"] = {"observed": {"children_states_before": s0["children"], "after_1": s1["children"], "after_3": s3["children"]}, "expected": "no children left"}
+        if st == "Z":
+            name = f"zombie[{_grow(e1[st], e3[st])}]"
+        else:
+            name = f"child-left[running,{_grow(e1[st], e3[st])}]"
+        v[name] = {"observed": {"children_states_before": s0["children"], "after_1": s1["children"], "after_3": s3["children"]}, "expected": "no children left"}
     for tag, s in (("after_1", s1), ("after_3", s3)):
         if s["cwd"] != s0["cwd"]:
             v["cwd"] = {"observed": {tag: s["cwd"]}, "expected": s0["cwd"]}
         for n in sorted(s0["stdio"]):
             if s["stdio"][n][0] != s0["stdio"][n][0]:
-                v[f"stdio[{n},replaced]"] = {"observed": {tag: "different object"}, "expected": "same object"}
+                v[f"stdio[{n},replaced-by-{s['stdio'][n][2]}]"] = {"observed": {tag: f"a different object ({s['stdio'][n][2]})"}, "expected": f"the same {s0['stdio'][n][2]} object"}
             elif s["stdio"][n][1] and not s0["stdio"][n][1]:
                 v[f"stdio[{n},closed]"] = {"observed": {tag: "closed"}, "expected": "open"}
         dead = {}
@@ -272,9 +284,8 @@ def _run(case):
         "log": res.get("log", []),
         "logs_equal": res.get("logs_equal", True),
         "fired": res.get("fired", 0),
-        "thread_deaths": res.get("thread_deaths", []),
-        "hang_stacks": res.get("hang_stacks", []),
-        "stderr_tail": (res.get("term2_tail") or "")[-200:],
+        "deaths": res.get("thread_deaths", []),
+        "stderr_tail": (res.get("term2_tail") or "")[-300:],
     }
 
 
@@ -294,6 +305,14 @@ def _fault_points(log):
 
 
 # ------------------------------------------------------------------ keys
+
+# Signature classes that can depend on real-time scheduling (several stage threads racing): they
+# are reported only when the same case shows them in 3 runs out of 3.
+CONFIRM = ("child-left", "thread-left", "sigint-probe", "fd-closed", "env", "cwd")
+
+
+def _needs_confirmation(r):
+    return not r["deaths"] and any(s.startswith(CONFIRM) for s in r["sigs"])
 
 
 def _simplifications(cid):
@@ -322,40 +341,46 @@ def _simplifications(cid):
             yield (stages[:i] + ("ext_ok",) + stages[i + 1 :], cap, red, fid)
     if len(stages) >= 2:
         for i in range(len(stages)):
-            st = stages[:i] + stages[i + 1 :]
-            if _valid(st, red):
-                yield (st, cap, red, fid)
+            yield (stages[:i] + stages[i + 1 :], cap, red, fid)
 
 
 class Reducer:
     """Greedy descent while the same resource signature persists.  A candidate that was not part of
     the enumerated space is executed on demand (memoised), so the key of a case does not depend
-    on which other cases the tier happened to enumerate."""
+    on which other cases the tier happened to enumerate.  Candidates in which a stage thread died
+    (a scheduling race, keyed separately) never count as 'the same violation'."""
 
     def __init__(self, results):
-        self.results = results  # cid -> {sig: detail} | None (fault point not reached)
+        self.results = results  # cid -> result dict | None (fault point not reached)
         self.extra_runs = 0
         self.memo = {}
 
-    def sigs_of(self, cid):
+    def sigs_of(self, cid, on_demand=True):
         if cid not in self.results:
+            if not on_demand:
+                return None
             stages, cap, red, fid = cid
             fault = None if fid is None else {"role": fid[0], "label": fid[1], "ordinal": fid[2], "exc": fid[3]}
             r = _run(_mk_case(stages, cap, red, fault=fault))
             self.extra_runs += 1
-            self.results[cid] = r["sigs"] if (fid is None or r["fired"]) else None
-        return self.results[cid]
+            self.results[cid] = r if (fid is None or r["fired"]) else None
+        r = self.results[cid]
+        if r is None or r["deaths"]:
+            return None
+        return r["sigs"]
 
     def reduce(self, cid, sig):
-        start = (cid, sig)
         path = []
+        on_demand = sig != "hang"  # never go looking for further 20 s hangs
         while True:
             if (cid, sig) in self.memo:
                 cid = self.memo[(cid, sig)]
                 break
             path.append((cid, sig))
             for cand in _simplifications(cid):
-                r = self.sigs_of(cand)
+                if not _valid(cand[0], cand[2]):
+                    continue
+                r = self.sigs_of(cand, on_demand)
                 if r is not None and sig in r:
                     cid = cand
                     break
@@ -363,16 +388,25 @@ class Reducer:
                 break
         for p in path:
             self.memo[p] = cid
-        del start
         return cid
+
+
+def _fault_suffix(fid):
+    if fid is None:
+        return ""
+    return f":fault={fid[1]}#{fid[2]}@{fid[0]}" + (f":{fid[3]}" if fid[3] else "")
 
 
 def key_of(cid, sig):
     stages, cap, red, fid = cid
-    k = f"{sig}:{'|'.join(stages)}:{cap}:{red}"
-    if fid is not None:
-        k += f":fault={fid[1]}#{fid[2]}@{fid[0]}" + (f":{fid[3]}" if fid[3] else "")
-    return k
+    return f"{sig}:{'|'.join(stages)}:{cap}:{red}" + _fault_suffix(fid)
+
+
+def stdio_key(cid, sig):
+    """sys.std* damage comes from stage threads swapping the process-global streams; what matters
+    is how many threaded stages there were (and the injected fault), not the exact shape."""
+    n = sum(k.startswith("thr_") for k in cid[0])
+    return f"{sig}:threaded-stages={n if n < 2 else '2+'}" + _fault_suffix(cid[3] and (cid[3][0], cid[3][1], cid[3][2], ""))
 
 
 # ------------------------------------------------------------------ run / replay
@@ -389,23 +423,27 @@ def run(ctx):
     main_res, rec_res = out[: len(main_cases)], out[len(main_cases) :]
     ctx.log("fault-free runs done")
 
-    results = {}  # cid -> {sig: detail}
+    results = {}  # cid -> result
     cases_by_cid = {}
     order = []
     for case, r in zip(main_cases, main_res):
         cid = _cid(case)
-        results[cid] = r["sigs"]
-        cases_by_cid[cid] = (case, r)
+        results[cid] = r
+        cases_by_cid[cid] = case
         order.append(cid)
     shim_disagree = []
     for case, r in zip(rec_cases, rec_res):
         cid = _cid(case)
         if cid in results:
-            if set(results[cid]) != set(r["sigs"]):
-                shim_disagree.append((cid, sorted(results[cid]), sorted(r["sigs"])))
+            a, b = results[cid], r
+            if not a["deaths"] and not b["deaths"]:
+                sa = {s for s in a["sigs"] if not s.startswith(CONFIRM + ("stdio", "hang"))}
+                sb = {s for s in b["sigs"] if not s.startswith(CONFIRM + ("stdio", "hang"))}
+                if sa != sb:
+                    shim_disagree.append((cid, sorted(sa), sorted(sb)))
         else:
-            results[cid] = r["sigs"]
-            cases_by_cid[cid] = (case, r)
+            results[cid] = r
+            cases_by_cid[cid] = case
             order.append(cid)
     if shim_disagree:
         raise common.ToolError(f"passive shims changed the verdict (or the verdict is not deterministic): {shim_disagree[:3]}")
@@ -424,38 +462,68 @@ def run(ctx):
     fired = 0
     for case, r in zip(fault_cases, fres):
         cid = _cid(case)
-        results[cid] = r["sigs"]
-        cases_by_cid[cid] = (case, r)
+        results[cid] = r
+        cases_by_cid[cid] = case
         order.append(cid)
         fired += 1 if r["fired"] else 0
+    ctx.log("single-fault runs done")
+
+    # confirmation of scheduling-sensitive observations: 3 out of 3
+    todo = [cid for cid in order if _needs_confirmation(results[cid])]
+    again = common.pmap(_run, [cases_by_cid[c] for c in todo for _ in range(2)], ctx.jobs, chunk=2, init=_init, seed=ctx.seed)
+    unconfirmed = Counter()
+    for i, cid in enumerate(todo):
+        r = results[cid]
+        for sig in [s for s in r["sigs"] if s.startswith(CONFIRM)]:
+            if not all(sig in a["sigs"] for a in again[2 * i : 2 * i + 2]):
+                unconfirmed[sig.split("[")[0]] += 1
+                del r["sigs"][sig]
+    ctx.log(f"confirmation: {len(todo)} cases re-run twice; unconfirmed observations dropped: {dict(unconfirmed)}")
 
     # keys
     n_viol_cases = 0
+    n_tainted = 0
     reducer = Reducer(results)
     for cid in order:
-        sigs = results[cid]
-        if not sigs:
+        r = results[cid]
+        if not r["sigs"]:
             continue
         n_viol_cases += 1
-        case, r = cases_by_cid[cid]
-        for sig, det in sigs.items():
-            mcid = reducer.reduce(cid, sig)
+        case = cases_by_cid[cid]
+        note = f"outcomes per repetition: {r['outcomes']}; stderr tail: {r['stderr_tail'][-200:]!r}"
+        if r["deaths"]:
+            n_tainted += 1
             ctx.violation(
-                key_of(mcid, sig),
+                "stage-thread-died[" + "+".join(r["deaths"]) + "]",
+                "no wedged session / Ctrl-C still interrupts (a stage thread died inside xonsh's own code, outside the alias)",
+                {"case": case, "line": H.render(case), "signature": "stage-thread-died"},
+                observed={"thread deaths": r["deaths"], "session differences": sorted(r["sigs"])},
+                expected="stage threads end normally; session as before",
+                note=note,
+            )
+            continue
+        for sig, det in r["sigs"].items():
+            if sig.startswith("stdio"):
+                key, reduced = stdio_key(cid, sig), None
+            else:
+                mcid = reducer.reduce(cid, sig)
+                key, reduced = key_of(mcid, sig), H.render(_mk_case(*mcid[:3])).strip()
+            ctx.violation(
+                key,
                 CLAUSE.get(sig.split("[")[0], sig),
-                {"case": case, "line": H.render(case), "signature": sig, "reduced_to": H.render(_mk_case(*mcid[:3])).strip()},
+                {"case": case, "line": H.render(case), "signature": sig, "reduced_to": reduced},
                 observed=det["observed"],
                 expected=det["expected"],
-                note=f"outcomes per repetition: {r['outcomes']}; stderr tail: {r['stderr_tail']!r}",
+                note=note,
             )
-    # simplest-first artefacts: order violations by the size of the case
+    ctx.log(f"key reduction needed {reducer.extra_runs} extra runs")
+    # simplest-first artefacts
     ctx.violations.sort(key=lambda v: (v.case["case"]["fault"] is not None, _deviations(tuple(v.case["case"]["stages"]), v.case["case"]["capture"], v.case["case"]["redirect"]), len(v.case["case"]["stages"])))
 
     for cid in common.pick_samples([c for c in order if c[3] is None], ctx.seed, 5) + common.pick_samples([c for c in order if c[3] is not None], ctx.seed, 4):
-        case, r = cases_by_cid[cid]
-        ctx.sample({"line": H.render(case), "fault": case["fault"], "outcomes": r["outcomes"], "acquisition_log": r["log"], "violated": sorted(results[cid])})
-    total = len(main_cases) + len(rec_cases) + len(fault_cases) + reducer.extra_runs
-    ctx.log(f"key reduction needed {reducer.extra_runs} extra runs")
+        case, r = cases_by_cid[cid], results[cid]
+        ctx.sample({"line": H.render(case), "fault": case["fault"], "outcomes": r["outcomes"], "acquisition_log": r["log"], "violated": sorted(r["sigs"])})
+    total = len(main_cases) + len(rec_cases) + len(fault_cases) + 2 * len(todo) + reducer.extra_runs
     nontrivial = {c for c in order if (c[3] is None and _deviations(*c[:3]) > 0)} | {_cid(c) for c, r in zip(fault_cases, fres) if r["fired"]}
     ctx.coverage.update(
         evaluations=total,
@@ -470,6 +538,9 @@ def run(ctx):
         shapes_with_repetition_dependent_logs=unequal_logs,
         repetitions_per_case=3,
         cases_with_violation=n_viol_cases,
+        cases_with_stage_thread_death=n_tainted,
+        confirmation_reruns=2 * len(todo),
+        unconfirmed_observations_dropped=dict(unconfirmed),
         extra_runs_for_key_reduction=reducer.extra_runs,
         bounds={
             "stages": "1-3" if ctx.thorough else "1-2",
@@ -484,6 +555,7 @@ def run(ctx):
         "Linux /proc is the source of truth for fds and children; quiescence = gc.collect() + real-time poll (<= 2 s) until no helper thread is alive and no child is running",
         "single faults only (one failing acquisition call per run, repeated identically in each of the 3 repetitions); Popen failures are injected at subprocess.Popen.__init__",
         "default $XONSH_SUBPROC_RAISE_ERROR (failing pipelines raise CalledProcessError, an allowed outcome)",
+        "real threads, real time: races between stage threads are observed, not enumerated; scheduling-sensitive observations (child/thread left, Ctrl-C probe) count only when reproduced 3/3, and a case in which a stage thread died in xonsh's own code is keyed by that death, not by its shape",
     ]
 
 
@@ -491,15 +563,27 @@ def replay(rec):
     H.warm_up()
     c = rec["case"]
     case = c["case"]
+    want = c["signature"]
     print("line:", repr(H.render(case)), "fault:", case.get("fault"))
-    r = _run(case)
+    attempts = 12 if want == "stage-thread-died" else 1
+    for n in range(attempts):
+        r = _run(case)
+        if want != "stage-thread-died" or r["deaths"]:
+            break
     print("outcomes per repetition:", r["outcomes"])
     print("acquisition log:", r["log"])
-    want = c["signature"]
+    print("stage threads that died in xonsh code:", r["deaths"])
     for sig, det in sorted(r["sigs"].items()):
         print(f"  {'*' if sig == want else ' '} {sig}")
         print("      observed:", common.jdump(det["observed"])[:600])
         print("      expected:", common.jdump(det["expected"])[:300])
+    if want == "stage-thread-died":
+        if r["deaths"] and r["sigs"]:
+            print(f"VIOLATION reproduced (attempt {n + 1}; scheduling-dependent): {rec.get('key')}")
+            print("stderr tail:", r["stderr_tail"])
+            return 1
+        print(f"no stage thread died in {attempts} attempts (scheduling-dependent race)")
+        return 0
     if want in r["sigs"]:
         print(f"VIOLATION reproduced: {want}  (recorded key: {rec.get('key')})")
         return 1
